@@ -1,6 +1,9 @@
 package refgen
 
 import (
+	"fmt"
+	"reflect"
+	"regexp"
 	"strings"
 
 	"verif/harness/lib"
@@ -87,4 +90,153 @@ func (r *Runner) Listing(src string) string {
 	}
 	env.Clear()
 	return strings.Join(parts, ";")
+}
+
+var reLoopName = regexp.MustCompile(`__loop[A-Za-z0-9_]*`)
+
+// loopFields reads the unexported bookkeeping of a loop instruction by reflection (read only):
+// BreakInstr/ContinueInstr.scopesToPop and Loop.breakOffset/continueOffset.
+func loopFields(in interface{}) (scopesToPop, brk, cont int64, isExit, isStart bool) {
+	v := reflect.ValueOf(in)
+	if v.Kind() == reflect.Ptr {
+		v = v.Elem()
+	}
+	if v.Kind() != reflect.Struct {
+		return
+	}
+	lp := v.FieldByName("loop")
+	if !lp.IsValid() || lp.Kind() != reflect.Ptr || lp.IsNil() {
+		return
+	}
+	l := lp.Elem()
+	if f := l.FieldByName("breakOffset"); f.IsValid() {
+		brk = f.Int()
+	}
+	if f := l.FieldByName("continueOffset"); f.IsValid() {
+		cont = f.Int()
+	}
+	if f := v.FieldByName("scopesToPop"); f.IsValid() {
+		return f.Int(), brk, cont, true, false
+	}
+	return 0, brk, cont, false, true
+}
+
+// ListingF1 is Listing for the fragment with for/break/continue: loop names are renumbered L1, L2, ..
+// in order of appearance, loopstart shows the loop record's offsets, break/continue show scopesToPop.
+func (r *Runner) ListingF1(src string) string {
+	env := r.Env
+	env.Clear()
+	if err := env.LoadString(src); err != nil {
+		env.Clear()
+		return "COMPILE-ERROR"
+	}
+	names := map[string]string{}
+	norm := func(s string) string {
+		return reLoopName.ReplaceAllStringFunc(s, func(n string) string {
+			if _, ok := names[n]; !ok {
+				names[n] = fmt.Sprintf("L%d", len(names)+1)
+			}
+			return names[n]
+		})
+	}
+	var parts []string
+	for _, in := range env.VerifMainFunc().VerifCode() {
+		s := strings.TrimRight(in.InstrString(), " ")
+		f := strings.Fields(s)
+		switch {
+		case strings.HasPrefix(s, "callExpr "):
+			s = "callExpr " + f[len(f)-1]
+		case strings.HasPrefix(s, "label "):
+			s = "label"
+		case strings.HasPrefix(s, "jump "):
+			s = "jump " + f[1]
+		case strings.HasPrefix(s, "loopstart "):
+			_, b, c, _, _ := loopFields(in)
+			s = fmt.Sprintf("%s brk=%d cont=%d", norm(s), b, c)
+		case strings.HasPrefix(s, "break "), strings.HasPrefix(s, "continue "):
+			k, _, _, _, _ := loopFields(in)
+			s = fmt.Sprintf("%s %s pop=%d", f[0], norm(f[1]), k)
+		default:
+			s = norm(s)
+		}
+		parts = append(parts, s)
+	}
+	env.Clear()
+	return strings.Join(parts, ";")
+}
+
+// GenF1 generates a random F1 expression: F0 plus for loops with plain/labelled break/continue.
+// loops is the list of labels of the enclosing loops ("" = unlabelled) in the current compile unit.
+func GenF1(r *lib.Rng, d int, loops []string) *Node {
+	if d > 1 && r.Intn(5) == 0 {
+		label := ""
+		if r.Intn(3) == 0 {
+			label = []string{"la", "lb"}[r.Intn(2)]
+		}
+		v := []string{"i", "j", "x"}[r.Intn(3)]
+		inner := append(append([]string{}, loops...), label)
+		nb := r.Intn(3)
+		var body []*Node
+		for i := 0; i < nb; i++ {
+			body = append(body, GenF1(r, d-1, inner))
+		}
+		init := Def(v, Int(0))
+		if r.Intn(6) == 0 {
+			init = GenF1(r, d-1, nil)
+		}
+		return For(label, init, CallN("<", Var(v), Int(int64(r.Intn(3)))), Set(v, CallN("+", Var(v), Int(1))), body...)
+	}
+	if len(loops) > 0 && r.Intn(6) == 0 {
+		target := ""
+		if l := loops[r.Intn(len(loops))]; l != "" && r.Intn(2) == 0 {
+			target = l
+		}
+		if r.Bool() {
+			return Break(target)
+		}
+		return Cont(target)
+	}
+	if d <= 1 || r.Intn(5) == 0 {
+		return GenF0(r, 1)
+	}
+	list := func(min int) []*Node {
+		n := min + r.Intn(3)
+		var out []*Node
+		for i := 0; i < n; i++ {
+			out = append(out, GenF1(r, d-1, loops))
+		}
+		return out
+	}
+	name := []string{"x", "y", "f"}[r.Intn(3)]
+	switch r.Intn(10) {
+	case 0:
+		return Begin(list(1)...)
+	case 1:
+		arms := r.Intn(3)
+		var kids []*Node
+		for i := 0; i < arms; i++ {
+			kids = append(kids, GenF1(r, d-1, loops), GenF1(r, d-1, loops))
+		}
+		return Cond(append(kids, GenF1(r, d-1, loops))...)
+	case 2:
+		return And(list(1)...)
+	case 3:
+		return Or(list(1)...)
+	case 4:
+		return Def(name, GenF1(r, d-1, loops))
+	case 5:
+		return Set(name, GenF1(r, d-1, loops))
+	case 6, 7:
+		nb := r.Intn(3)
+		var names []string
+		var inits []*Node
+		for i := 0; i < nb; i++ {
+			names = append(names, []string{"x", "y", "f"}[r.Intn(3)])
+			inits = append(inits, GenF1(r, d-1, loops))
+		}
+		return Let(r.Bool(), names, inits, list(1)...)
+	case 8:
+		return Scope(list(1)...)
+	}
+	return CallN([]string{"+", "-", "trace", "list"}[r.Intn(4)], GenF0(r, 2))
 }
